@@ -3,6 +3,7 @@ package props
 import (
 	"encoding/json"
 	"fmt"
+	"github.com/go-openapi/spec"
 	"os"
 	"sort"
 
@@ -85,7 +86,7 @@ var requiredMembers = map[string]map[string]bool{
 	"tag": {"name": true}, "externalDocs": {"url": true}, "response": {"description": true},
 	"parameter": {"name": true, "in": true, "type": true, "schema": true}, "items": {"type": true}, "header": {"type": true},
 	"securityScheme": {"type": true, "name": true, "in": true, "flow": true, "authorizationUrl": true, "tokenUrl": true},
-	"operation": {"responses": true},
+	"operation":      {"responses": true},
 }
 
 // normalFormViolation re-checks the generated document against C01's definition of normal form
@@ -197,6 +198,21 @@ func c01Run(env *core.Env, idx int) core.CaseResult {
 		res.Violate("encoded-invalid-json "+kind, perr.Error()+": "+core.Abbrev(string(out), 300), wit)
 		return res
 	}
+	if kind == "swagger" {
+		// the same text decoded into a value that has held another document before: what a document decodes to is a function of its text
+		used := new(spec.Swagger)
+		_ = json.Unmarshal([]byte(c01EarlierDocument), used)
+		err, pan := guard(func() error { return json.Unmarshal(spelled, used) })
+		if err == nil && pan == "" {
+			if again, err := json.Marshal(used); err == nil {
+				res.Count("decoded-into-a-used-value", 1)
+				if ag, perr := oracle.Parse(again); perr == nil && !oracle.Equal(ag, got) {
+					d := oracle.Diff(got, ag)
+					res.Violate("decode-into-a-used-value-differs-from-a-fresh-one swagger", fmt.Sprintf("at %s: fresh value %s, used value %s", d[0].Pointer(), core.Abbrev(oracle.Text(d[0].Before), 120), core.Abbrev(oracle.Text(d[0].After), 120)), wit)
+				}
+			}
+		}
+	}
 	if oracle.Equal(in, got) {
 		return res
 	}
@@ -213,6 +229,14 @@ func c01Run(env *core.Env, idx int) core.CaseResult {
 	return res
 }
 
+// c01EarlierDocument is what the re-used value held before (every top-level member present, so that anything left behind shows)
+const c01EarlierDocument = `{"swagger":"2.0","info":{"title":"earlier","version":"0","description":"earlier document","termsOfService":"tos","contact":{"name":"c"},"license":{"name":"l"}},
+"host":"earlier.example:8080","basePath":"/earlier","schemes":["wss"],"consumes":["application/earlier"],"produces":["application/earlier"],
+"paths":{"/earlier":{"get":{"operationId":"earlier","responses":{"200":{"description":"earlier"}}}}},
+"definitions":{"Earlier":{"type":"object","x-earlier":true}},"parameters":{"earlier":{"name":"e","in":"query","type":"string"}},"responses":{"earlier":{"description":"e"}},
+"securityDefinitions":{"earlier":{"type":"basic"}},"security":[{"earlier":[]}],"tags":[{"name":"earlier","description":"e"},{"name":"earlier2"}],
+"externalDocs":{"url":"http://earlier.example"},"x-earlier":{"a":1}}`
+
 func c01Floors(env *core.Env) []string {
 	cells, err := gen.MetaCells(verifRootDir(), false)
 	if err != nil {
@@ -225,6 +249,7 @@ func c01Floors(env *core.Env) []string {
 	for _, k := range gen.DocKinds {
 		out = append(out, "kind."+k)
 	}
+	out = append(out, "decoded-into-a-used-value")
 	sort.Strings(out)
 	return out
 }
